@@ -30,6 +30,31 @@ Proof.
   - rewrite Nnat.Nat2N.inj_succ, N.shiftr_succ_r, IH, halve_succ. apply N_div2_of_nat.
 Qed.
 
+Lemma N_odd_of_nat x : N.odd (N.of_nat x) = Nat.odd x.
+Proof. rewrite <- N.negb_even, <- Nat.negb_even, N_even_of_nat. reflexivity. Qed.
+
+Lemma incl_len_of_nat fuel : forall x j,
+  incl_len_f fuel (N.of_nat x) (N.of_nat j) = N.of_nat (ilen fuel x j).
+Proof.
+  induction fuel as [|f IH]; intros x j; cbn [incl_len_f ilen]; [reflexivity|].
+  rewrite N_eqb_of_nat, !N_div2_of_nat, IH, N_odd_of_nat.
+  change 0%N with (N.of_nat 0). rewrite N_eqb_of_nat.
+  destruct (x =? j)%nat.
+  - destruct (j =? 0)%nat; [reflexivity|]. destruct (Nat.odd j); lia.
+  - lia.
+Qed.
+
+Lemma fuel_for_enough j : (j < 2 ^ fuel_for (N.of_nat j))%nat.
+Proof.
+  unfold fuel_for. destruct j as [|j]; [simpl; lia|].
+  set (n := N.of_nat (S j)). assert (Hn : (0 < n)%N) by (unfold n; lia).
+  destruct (N.log2_spec n Hn) as [_ Hlt].
+  assert (E : S j = N.to_nat n) by (unfold n; lia). rewrite E.
+  assert (N.to_nat n < N.to_nat (2 ^ N.succ (N.log2 n)))%nat by lia.
+  rewrite N2Nat.inj_pow, N2Nat.inj_succ in H. change (N.to_nat 2) with 2%nat in H.
+  cbn [Nat.pow]. cbn [Nat.pow] in H. lia.
+Qed.
+
 Lemma bytes_eqb_refl (l : bytes) : bytes_eqb l l = true.
 Proof.
   unfold bytes_eqb. induction l as [|b l IHl]; cbn [list_eqb]; auto.
@@ -174,9 +199,14 @@ Proof.
   set (x := N.to_nat (i - 1)). set (jj := N.to_nat (j - 1)).
   assert (Ex : (i - 1)%N = N.of_nat x) by (unfold x; lia).
   assert (Ej : (j - 1)%N = N.of_nat jj) by (unfold jj; lia).
+  unfold inclusion_proof_len in Sh.
   rewrite Ex, Ej in V, Sh. rewrite incl_steps_nat in V.
-  unfold lenN in Sh. rewrite !shiftr_of_nat in Sh. apply Nnat.Nat2N.inj in Sh.
-  destruct (incl_exact_nat L terms x jj d) as [E|C]; auto; try lia.
+  rewrite incl_len_of_nat in Sh. unfold lenN in Sh. apply Nnat.Nat2N.inj in Sh.
+  assert (Hh : halve (length terms) x = halve (length terms) jj).
+  { rewrite Sh. apply ilen_halve; [lia | apply fuel_for_enough]. }
+  assert (Hlen_L : length L = S jj) by lia.
+  assert (Hxj : (x <= jj)%nat) by lia.
+  destruct (incl_exact_nat L terms x jj d Hlen_L Hxj F Hh (eq_sym V)) as [E|C]; auto.
   left. split; [exact E | lia].
 Qed.
 
@@ -201,9 +231,15 @@ Proof.
     destruct (N.eqb_spec (lenN terms) 0) as [Z|]; auto.
     unfold lenN in Z. assert (length terms = 0%nat) by lia.
     rewrite H2 in Hh. simpl in Hh. lia. }
-  rewrite G. rewrite Ex, Ej. unfold lenN. rewrite !shiftr_of_nat.
-  replace (halve (length terms) x) with (halve (length terms) jj) by (symmetry; exact Hh).
-  rewrite N.eqb_refl. cbn [negb].
+  rewrite G. unfold inclusion_proof_len. rewrite Ex, Ej. rewrite incl_len_of_nat.
+  assert (Elen : length terms = ilen (fuel_for (N.of_nat jj)) x jj).
+  { unfold terms, hterms. rewrite map_length.
+    rewrite (hsteps_len (length (lv0 L)) (lv0 L) x (fuel_for (N.of_nat jj))).
+    - unfold lv0. rewrite map_length. reflexivity.
+    - lia.
+    - unfold lv0. rewrite map_length. lia.
+    - unfold lv0. rewrite map_length. replace (length L - 1)%nat with jj by lia. apply fuel_for_enough. }
+  unfold lenN. rewrite Elen, N.eqb_refl. cbn [negb].
   rewrite eval_inclusion_climb, incl_steps_nat, E.
   apply bytes_eqb_refl.
 Qed.
